@@ -47,8 +47,13 @@ def sortAL {α} (l : List (Nat × α)) : List (Nat × α) :=
 
 def pairKey (p : Nat × Nat) : Nat := p.1 * 18446744073709551616 + p.2
 
+def dedupSorted : List (Nat × Nat) → List (Nat × Nat)
+  | a :: b :: t => if a == b then dedupSorted (b :: t) else a :: dedupSorted (b :: t)
+  | l => l
+
+/-- blob files are a SET of names: sorted, without duplicates -/
 def sortPairs (l : List (Nat × Nat)) : List (Nat × Nat) :=
-  (sortAL (l.map fun p => (pairKey p, p))).map (·.2)
+  dedupSorted ((sortAL (l.map fun p => (pairKey p, p))).map (·.2))
 
 def b01 (b : Bool) : String := if b then "1" else "0"
 
